@@ -256,6 +256,8 @@ fn cell_alphabet() -> Vec<Data> {
         Data::String("true".into()), Data::Bool(true), Data::Error(CellErrorType::Div0), Data::Float(0.0), Data::Error(CellErrorType::NA),
         // a zero-length string is a value, not an absent cell
         Data::String(String::new()),
+        // an integer that no f64 holds exactly (2^53 + 1): integer targets get it unchanged
+        Data::Int(9_007_199_254_740_993),
     ]
 }
 
